@@ -207,7 +207,8 @@ func RunScenario(t *testing.T, sc *Scenario, tape []int32) *RunResult {
 	}
 	defer func() { simlog.Cur = nil; simos.W = nil; simsync.HookFn = nil }()
 
-	var obsSem, sweepSem simsync.Sem
+	var obsSem, sweepSem, finSem simsync.Sem
+	finishing := false
 	sweepCancelled := false
 	rc.sweepSem, rc.sweepCancelled = &sweepSem, &sweepCancelled
 	obsStop := false
@@ -232,6 +233,11 @@ func RunScenario(t *testing.T, sc *Scenario, tape []int32) *RunResult {
 			// the first stable point: Run() has registered and released everything it
 			// starts by itself; API clients begin from here
 			started.Set()
+			return true
+		}
+		if finishing {
+			finishing = false
+			finSem.Post()
 			return true
 		}
 		if obsStop || !sc.Observe {
@@ -320,7 +326,15 @@ func RunScenario(t *testing.T, sc *Scenario, tape []int32) *RunResult {
 		if !cdone.WaitTimeout(time.Duration(sc.BoundMs) * time.Millisecond) {
 			simlog.Add(simlog.Event{Kind: "client.hang"})
 		}
+		if sc.QuietMs > 0 {
+			simsync.Sleep(simsync.SiteHarness, time.Duration(sc.QuietMs)*time.Millisecond)
+		}
 		obsStop = true
+		// the final observations are taken at a stable point: everything that happens at
+		// this fake instant has happened
+		finishing = true
+		simsync.Yield(simsync.SiteHarness)
+		finSem.Wait()
 		// final observations
 		if st, err := snapStates(runner); err == nil {
 			simlog.Add(simlog.Event{Kind: "fin.snap", Data: Snap{Stable: true, States: st}})
